@@ -11,6 +11,7 @@ import (
 	"io"
 	"net"
 	"sync"
+	"sync/atomic"
 	"testing"
 	"time"
 
@@ -476,6 +477,35 @@ func TestVerif_C04_UDP(t *testing.T) {
 			r.Inconclusive(tp.Name + ": " + err.Error())
 			return
 		}
+		// close-during-open: the exit's handling of UDP_OPEN is delayed (the tap callback runs in
+		// the exit's read loop), the client sends its first datagram and drops its control
+		// connection while the open handshake is still pending. Whatever the ingress does with
+		// the queued datagram, it must not reach a link unsealed.
+		exitID := m.nodes[tp.Exit].a.ID()
+		var delayOpens atomic.Bool
+		delayOpens.Store(true)
+		tap.mu.Lock()
+		scan := tap.onPayload
+		tap.onPayload = func(ev *mkFrameEv, payload []byte) {
+			if !ev.Write && ev.Local == exitID && ev.Type == protocol.FrameUDPOpen && delayOpens.Load() {
+				time.Sleep(120 * time.Millisecond)
+			}
+			scan(ev, payload)
+		}
+		tap.mu.Unlock()
+		for k := 0; k < r.N(4, 12); k++ {
+			addr := m.nodes[tp.Ingresses[0]].a.SOCKS5Address()
+			c, cerr := mkSocksUDPAssociate(addr.String(), uint64(ci)<<16|0x8000|uint64(k))
+			if cerr != nil {
+				continue
+			}
+			c.send(net.IPv4(127, 1, 9, byte(1+k)), echo.port, 0, 200, rng)
+			time.Sleep(time.Duration(10+rng.Intn(60)) * time.Millisecond)
+			c.close()
+			r.Add("udp_closed_during_open", 1)
+		}
+		time.Sleep(400 * time.Millisecond) // let delayed opens and queued datagrams drain
+		delayOpens.Store(false)
 		mu.Lock()
 		for _, l := range leaks {
 			r.Violation("plaintext-on-link:udp-datagram", "scan", ci, fmt.Sprintf("topology %s: a UDP_DATAGRAM frame on an inter-agent link carries application plaintext: %s", tp.Name, l), out)
